@@ -87,9 +87,29 @@ try:
             rc, o = sh("go test -vet=off -count=1 -timeout 25m ./... 2>&1 | grep -E '^(FAIL|ok|---)' ", cwd=WT, timeout=3000)
             fl = failing(o)
             base = failing(open("/tmp/mut/base-test.log").read()) if os.path.exists("/tmp/mut/base-test.log") else []
+            # tests that fail here but not on the unchanged tree: rerun alone (timing-based tests flake under load)
+            pend, pkg_of = [], {}
+            for line in o.splitlines():
+                m1 = re.match(r"^--- FAIL: (\S+)", line)
+                m2 = re.match(r"^FAIL\s+(\S+)\s", line)
+                if m1:
+                    pend.append(m1.group(1))
+                elif m2:
+                    for t in pend:
+                        pkg_of[t] = m2.group(1)
+                    pend = []
+            flaky = []
+            for t in [x for x in fl if x not in base and x in pkg_of]:
+                pk = pkg_of[t].replace("github.com/icon-project/goloop", ".")
+                for _ in range(2):
+                    rc3, o3 = sh("go test -vet=off -count=1 -run '^%s$' %s" % (t.split("/")[0], pk), cwd=WT, timeout=1200)
+                    if rc3 == 0:
+                        flaky.append(t)
+                        break
             res["suite_failing"] = fl
+            res["suite_flaky_passed_on_rerun"] = flaky
             res["suite_failing_baseline"] = base
-            res["suite_ok"] = set(fl) <= set(base)
+            res["suite_ok"] = set(fl) - set(flaky) <= set(base)
             res["suite_wall_s"] = round(time.time() - t0)
     # run our check against the changed tree
     t0 = time.time()
@@ -106,7 +126,6 @@ try:
         res["caught_by_thorough"] = rc == 1
 finally:
     sh("git -C /repo worktree remove --force %s" % WT)
-    sh("rm -rf /tmp/goloop-* 2>/dev/null")
     os.makedirs(DEST, exist_ok=True)
     if os.path.exists(os.path.join(OUT, "patch.diff")):
         shutil.copyfile(os.path.join(OUT, "patch.diff"), os.path.join(DEST, "patch.diff"))
